@@ -51,12 +51,34 @@ fn kad(i: u64) -> KademliaPeer {
     KademliaPeer::new(peer(i), vec![], ConnectionType::NotConnected)
 }
 
-/// `p:dist,p:dist` (or plain `p,p`): the peer numbers.
+fn is_hex(s: &str) -> bool {
+    !s.is_empty() && s.chars().all(|c| c.is_ascii_hexdigit())
+}
+
+/// `p:dist,p:dist`: the peer numbers (the distances are for the model).
 fn peer_list(s: Option<&&str>) -> Option<Vec<u64>> {
     match s {
         None => Some(vec![]),
         Some(s) if s.is_empty() => Some(vec![]),
-        Some(s) => s.split(',').map(|x| x.split(':').next()?.parse().ok()).collect(),
+        Some(s) => s
+            .split(',')
+            .map(|x| {
+                let f: Vec<&str> = x.split(':').collect();
+                if f.len() != 2 || !is_hex(f[1]) {
+                    return None;
+                }
+                f[0].parse().ok()
+            })
+            .collect(),
+    }
+}
+
+/// `p,p`
+fn num_list(s: Option<&&str>) -> Option<Vec<u64>> {
+    match s {
+        None => Some(vec![]),
+        Some(s) if s.is_empty() => Some(vec![]),
+        Some(s) => s.split(',').map(|x| x.parse().ok()).collect(),
     }
 }
 
@@ -77,7 +99,7 @@ fn prov_list(s: Option<&&str>) -> Option<Vec<ContentProvider>> {
             .split(',')
             .map(|x| {
                 let f: Vec<&str> = x.split(':').collect();
-                if f.len() != 3 {
+                if f.len() != 3 || !is_hex(f[1]) {
                     return None;
                 }
                 let addresses = if f[2].is_empty() {
@@ -244,11 +266,11 @@ impl QueryBox {
                 self.engine.start_get_providers(QueryId(q), key_of(t), cands, known);
             }
             "trackput" => {
-                let peers = peer_list(a.get("peers"))?.into_iter().map(peer).collect();
+                let peers = num_list(a.get("peers"))?.into_iter().map(peer).collect();
                 self.engine.start_put_record_to_found_nodes_requests_tracking(QueryId(q), key_of(t), peers, quorum);
             }
             "trackadd" => {
-                let peers = peer_list(a.get("peers"))?.into_iter().map(peer).collect();
+                let peers = num_list(a.get("peers"))?.into_iter().map(peer).collect();
                 self.engine.start_add_provider_to_found_nodes_requests_tracking(QueryId(q), key_of(t), peers, quorum);
             }
             _ => return None,
